@@ -87,7 +87,13 @@ func (g *exprGen) Typed(want PType, depth int) *Expr {
 			return Bin(op, g.Typed(TNumber, depth-1), g.Typed(g.anyType(), depth-1))
 		}
 	default:
-		switch rapid.IntRange(0, 6).Draw(g.t, "bform") {
+		switch rapid.IntRange(0, 7).Draw(g.t, "bform") {
+		case 7:
+			// a chain of `and` / `or` without parentheses in the minimal rendering: the two
+			// share one level and associate to the left
+			ops := []string{"and", "or"}
+			inner := Bin(rapid.SampledFrom(ops).Draw(g.t, "chainop1"), g.Typed(TBool, depth-1), g.leaf(TBool))
+			return Bin(rapid.SampledFrom(ops).Draw(g.t, "chainop2"), inner, g.leaf(TBool))
 		case 0:
 			return g.leaf(TBool)
 		case 1:
